@@ -58,7 +58,7 @@ V_HARNESS(h_msg)
   a->msg_buf.head.type = type = MSGT;
 #endif
 #if MSGT == 0
-  V_ASSUME(a->msg_buf.body.connect_req.buffer_count <= 2);      /* bound: the allocation loop runs once per buffer (up to 255 + clients) */
+  a->msg_buf.body.connect_req.buffer_count = W_CLBUF;           /* bound: the allocation loop runs once per buffer (up to 255 + clients) */
 #endif
   /* established by vbi_proxy_msg_handle_read (obligation read_framing): complete message, 8 <= len <= sizeof msg_buf */
   V_ASSUME(len >= sizeof(VBIPROXY_MSG_HEADER) && len <= sizeof(a->msg_buf));
@@ -72,6 +72,10 @@ V_HARNESS(h_msg)
 
   /* ---- proxyd.c:2413-2428 ---- */
   ok = vbi_proxyd_check_msg(&a->msg_buf, &a->endianSwap);
+#if MSGT == 99
+  V_ASSERT(!ok, "non_request_types_rejected");              /* hence the daemon takes the else branch below */
+  vbi_proxyd_close(a, FALSE);
+#else
   if (ok) {
     vbi_proxy_msg_close_read(&a->io);
     taken = vbi_proxyd_take_message(a, &a->msg_buf);
@@ -80,6 +84,7 @@ V_HARNESS(h_msg)
   } else {
     vbi_proxyd_close(a, FALSE);
   }
+#endif
 
   obs_clnt(&b1, b); obs_dev(&d1, 0); obs_env(&e1);
   /* a rejected message changes nothing but the connection's own state (which is closed) */
